@@ -404,7 +404,8 @@ def run_case(case):
                                 'c': ([frl(r) for r in (k['mod']._c_beta if k['kind'] == 'TimeM' else k['mod']._c_gamma)] if k['kind'] in ('TimeM', 'DilM') else []),
                                 'fixed': frl(k['mod']._fixed_alpha) if k['kind'] == 'FrozenFeat' else []} for k in st0['masks']],
                      'layers': [{'name': l['name'], 'feat': l['feat'], 'tix': l['tix'],
-                                 'bn': frl(l['mod']._beta_norm) if l['time'] else [], 'gn': frl(l['mod']._gamma_norm) if l['time'] else []} for l in st0['layers']],
+                                 'bn': [x.limit_denominator(1000) for x in frl(l['mod']._beta_norm)] if l['time'] else [],
+                                 'gn': [x.limit_denominator(1000) for x in frl(l['mod']._gamma_norm)] if l['time'] else []} for l in st0['layers']],
                      'samplers': [{'names': q['names'], 'reach': rc, 'alpha': alpha_cols(q), 'prec': frl(q['mod'].precision) if cfg['method'] == 'MPS' else []} for q, rc in zip(st0['samplers'], reach(R.W, st0, cfg['method']))],
                      'view': view(R.W, st0, cfg['method'])}}
     for op in ops:
